@@ -60,6 +60,7 @@ def run(tier):
     res = core.Result("C08", tier)
     run_e1_ids(res, tier)
     cp, info = fam_reply.corpus(tier)
+    fam_basic.report_failed(res, cp, "reply")
     ids = c07.get_ids(cp, info)
     cx = fam_basic.CONTEXTS[1]
     bases = {}
@@ -159,7 +160,7 @@ def run(tier):
         res.outcome(("delivered", ok))
     res.parts["builder_cases"] = len(cases)
     res.parts["roundtrip_replies"] = len(cases2)
-    res.sample({"builder_case": cases[3], "built": obs[3]})
+    res.sample(lambda: {"builder_case": cases[3], "built": obs[3]})
     res.cov["rule"] = ("every reply name of the reply corpus x receiver in {existing SubMsg (gas limit none / 7, pre-set id, payload, trigger), WasmMsg, CosmosMsg} x "
                        "payload arguments (raw: 3 byte strings; typed: alphabet tuples): id == the name's constant, ids pairwise distinct, reply_on per the method set, "
                        "message and gas limit preserved; then the reply the chain would deliver (same id and payload, Ok and Err) is dispatched and the handler's "
